@@ -140,4 +140,30 @@ def sweep(ctx, n):
             m.check_selfintersecting(mode="ignore")
             if m.status_selfintersecting is not True:
                 bad(f"status:{kind}:selfintersection-not-detected", "two interpenetrating parts not reported self-intersecting")
+        # a thin spike piercing the interior of one triangle of a box face (no mutual edge crossings), for every
+        # relative order of spike faces and box faces
+        for trial in range(max(2, n // 8)):
+            nps = np.random.default_rng(rng.randrange(2**31))
+            v, f = box((2.0, 2.0, 2.0))
+            # triangle [4,6,7] of the x=+1 face has vertices (1,-1,-1),(1,1,-1),(1,1,1): pick a point well inside it
+            w = nps.dirichlet((3, 3, 3))
+            tri = v[[4, 6, 7]]
+            c = w @ tri
+            e = 0.03
+            spike = np.array([c + (1.5, 0, 0), c + (-0.6, e, 0), c + (-0.6, -e, e), c + (-0.6, -e, -e)])
+            sf = np.array([[0, 1, 2], [0, 2, 3], [0, 3, 1], [1, 3, 2]])
+            for order in ("spike-first", "box-first", "shuffled"):
+                if order == "spike-first":
+                    vv, ff = np.concatenate([spike, v]), np.concatenate([sf, f + 4])
+                elif order == "box-first":
+                    vv, ff = np.concatenate([v, spike]), np.concatenate([f, sf + 8])
+                else:
+                    vv, ff = np.concatenate([v, spike]), np.concatenate([f, sf + 8])
+                    ff = ff[nps.permutation(len(ff))]
+                m = magpy.magnet.TriangularMesh(vertices=vv, faces=ff, polarization=(0, 0, 1), check_disconnected="ignore", check_selfintersecting="ignore", reorient_faces="ignore")
+                m.check_selfintersecting(mode="ignore")
+                done += 1
+                kinds["spike"] = kinds.get("spike", 0) + 1
+                if m.status_selfintersecting is not True:
+                    bad(f"status:spike:{order}:selfintersection-not-detected", "a spike piercing a box face is not reported as self-intersection", {"vertices": vv.tolist(), "faces": ff.tolist()})
     return fails, {"c16_meshes": done, "c16_kinds": kinds}
